@@ -19,7 +19,7 @@ def templates(tier, seed):
     N = 2
     for which in tmpl.UNUSUAL:
         ts.append(Template(f"U/{which}/N={N}", tmpl.pick(tmpl.unusual_case, LABELS + ["input_unchanged"]), (which, N)))
-    for shape in ("frame", "frame_regex", "series", "parser"):
+    for shape in ("frame", "frame_regex", "series", "parser", "parser_dtype", "groupby"):
         for lazy in (False, True):
             mf = 1 if tier == "quick" else None
             ts.append(Template(f"X/{shape}/lazy={int(lazy)}/N={N}/faults<={mf}", tmpl.pick(tmpl.fault_case, LABELS), (shape, lazy, N, mf), max_paths=20000))
